@@ -29,7 +29,7 @@ func init() {
 		Word32: true,
 		Level:  "exploration",
 		Rule: "E1 bounded-exhaustive enumeration: every bitmap of B(n,0) ∪ B1(m) (≤n words over the 12-word core alphabet; ≤m words with exactly one word from the wide alphabet of single bits, low-j masks, complements and adjacent pairs) " +
-			"× {IndexRank64 (no option, false, true), IndexRank128} and × every position i × {Rank64 on the plain index, Rank64 on the trailing index, Rank128}; oracle = bit-by-bit running count; plus a length sweep (every length 0..N words × 4 word patterns, all index flavours, all positions) in which every returned index is compared once more after the NEXT bitmap's indexes have been built (an index must not change because another one is built), 195 bitmaps whose lengths lie within 9 words of every power of two from 2^10 to 2^16 words, and bitmaps of 2^18+3 and 2^20+5 words (complete index, ranks at the ends and around every 1/16th). " +
+			"× {IndexRank64 (no option, false, true), IndexRank128} and × every position i × {Rank64 on the plain index, Rank64 on the trailing index, Rank128}; oracle = bit-by-bit running count; plus a length sweep (every length 0..N words × 4 word patterns, all index flavours, all positions) in which every returned index is compared once more after the NEXT bitmap's indexes have been built (an index must not change because another one is built), 195 bitmaps whose lengths lie within 9 words of every power of two from 2^10 to 2^16 words, and bitmaps of 2^18+3 and 2^20+5 words and - on 64-bit builds - of 2^25-1 and 2^25 words, i.e. up to the last position an int32 can name (complete index, ranks at the first and last 1024 positions and around every 1/16th). " +
 			"A case is one (bitmap, position) pair or one (bitmap, index flavour); it is non-trivial when the bitmap has ≥2 words, at least one 1 and at least one 0. Cases are distinct by construction (product of duplicate-free alphabets).",
 		Assumptions: []string{
 			"64-bit words outside the core/wide alphabets and bitmaps longer than the bound are not enumerated (small-scope: the code's case splits are bit offset mod 64, word parity, left/right 128-bit half)",
@@ -200,6 +200,12 @@ func c01Run(c *mc.Ctx) {
 	{
 		type job struct{ l, p int }
 		jobs := []job{{1<<18 + 3, 3}, {1<<18 + 3, 0}, {1<<20 + 5, 3}, {1<<20 + 5, 1}}
+		if bits.UintSize == 64 {
+			// the top of the int32 position range: bitmaps of 2^25-1 and 2^25 words (256 MiB), the largest
+			// whose every position fits the int32 parameter; sparse pattern 9 (64-bit builds only)
+			jobs = append(jobs, job{1<<25 - 1, 9}, job{1 << 25, 9})
+			c.Add("bitmaps_of_2^31_bits", 1)
+		}
 		c.Par(len(jobs), func(ji int) {
 			j := jobs[ji]
 			w := c01SweepBitmap(j.l, j.p)
@@ -355,6 +361,18 @@ func c01SweepBitmap(l, p int) []uint64 {
 		case 2:
 			if i == l-1 {
 				w[i] = 1<<63 | uint64(l)
+			}
+		case 9:
+			// sparse, for bitmaps of 2^25 words: a few 1-bits at both ends and in the middle
+			switch i {
+			case 0:
+				w[i] = 1
+			case l / 2:
+				w[i] = 6
+			case l - 2:
+				w[i] = 1 << 63
+			case l - 1:
+				w[i] = 1<<63 | 1<<62 | 1<<31 | 1
 			}
 		default:
 			w[i] = uint64(i+3*l+1) * 0x9e3779b97f4a7c15
@@ -530,7 +548,12 @@ func c01Judge(kind string, cs c01Case) (got, want string) {
 	}
 	i := cs.I
 	run := int32(0)
-	for j := int32(0); j < i; j++ {
+	for k := int32(0); k < i>>6; k++ {
+		if w[k] != 0 {
+			run += naivePop(w[k])
+		}
+	}
+	for j := i &^ 63; j < i; j++ {
 		run += int32(w[j>>6] >> uint(j&63) & 1)
 	}
 	bit := int32(w[i>>6] >> uint(i&63) & 1)
